@@ -194,6 +194,7 @@ func runC07P(c *fw.Ctx) {
 		one(file, idx, size <= 8192)
 	}
 	c07pV1(c, model)
+	c07pV2(c, model) // the v2 clause through the real ValidateBlock on a simulated chain
 	c16ProverPath(c, model) // the library prover path for multi-sector files (shared with C16)
 	c.Compare(ops, outs)
 }
